@@ -34,7 +34,7 @@ def main():
             "needs_to_manifest": d["needs"],
             "files": {"patch": "patch.diff", "demonstration": f"demo_{prop}.py"},
             "confirmed": {
-                "how": "tools/seed_confirm.sh in a scratch worktree of /repo HEAD (outside /repo and /verif): full pytest suite with the change = baseline; "
+                "how": "tools/seed_confirm.sh / seed_confirm2.sh in a scratch worktree of /repo HEAD (outside /repo and /verif): full pytest suite with the change = baseline; "
                        "demonstration exits 1 with the change and 0 without",
                 "checks_run": "tools/seed_matrix.py: the patch applied to an in-memory copy of the package sources, every check run on it (nothing applied to /repo); "
                               "spot-checked with tools/seed_eval.sh (git -C /repo apply, every check quick, git -C /repo checkout -- .)",
